@@ -118,6 +118,15 @@ CHECKS = {
    note='PARTIAL as named: the probability space (independent uniforms, the conditioning formula P(j) = race integral) is definitional; frequencies are support, not proof.',
    technique='Coq proof (exp/ln algebra, Coquelicot integral and limit) + regenerated guard/dataflow + interval-certified race inequalities on captured noise + exact fallback correspondence',
    ref='DESIGN.md section 4 C19'),
+ 'C07': dict(
+   text='Theorems (Coq, reals, every dimension): straight-through: forward value = the code, derivative w.r.t. the input = identity; rotation trick: forward value = the code (non-degenerate norms), derivative = (|q|/|x|) (I - 2 w w^T + 2 q_hat u_hat^T) applied to dx, linear in the direction, '
+        'and that map carries the input direction onto the code direction; evaluation-mode output has no input gradient; sync_update_v scales the gradient by (1+v); commitment loss: d/dx = 2 w (x - q)/N (Coquelicot derivative), EMA-maintained or frozen codebooks get no gradient, learnable ones 2 w (q - x)/N; '
+        'FSQ: derivative = half_l (1 - tanh^2(z + shift)) / floor(L/2); gradients never flow between positions. '
+        'Tie: maybe_detach / rotation guards and safe_div regenerated, every .detach() / no_grad site pinned; full torch Jacobians compared column by column with the model evaluated in Coq over Q, forward values, loss gradients w.r.t. input and codebook, SimVQ two-sided loss and transform gradient, '
+        'FSQ / LFQ / LatentQuantize closed forms, residual and large forms by vector-Jacobian products, every cross-position block compared exactly with 0.',
+   note='PARTIAL as named: torch autograd itself is modelled (detached sub-expressions are constants of the differentiated map) and validated against real Jacobians, not verified; orthogonality of the rotation matrix is not proved (only that it maps u_hat to q_hat and is linear).',
+   technique='Coq proof (reals, vector algebra, Coquelicot derivatives) + regenerated guards / pinned detach sites + Jacobian correspondence evaluated in Coq over Q',
+   ref='DESIGN.md section 4 C07'),
  'C12': dict(
    text='Theorems (Coq, axiom-free, all n, cutoff, multiple_of, draws r): the layers that run are exactly the prefix {0..k-1} with k = min(n, round_up(r+1, m)); cutoff < k <= n; m | k or k = n; '
         'dropped layers form a suffix; every admissible k is produced by some in-contract draw; dropout is off when not training / indices supplied / dropout disabled / one layer. '
